@@ -7,6 +7,7 @@ all real γ, ρ₀, u₀, e₀ and every (real) geometry exponent.
 import EPV.Gen.Noh
 import EPV.Gen.Noh2
 import EPV.Gen.Noh2Cog
+import EPV.Lemmas.HydroRobust
 import EPV.Tactics
 
 set_option linter.all false
@@ -37,8 +38,7 @@ theorem noh2cog_eos (p : Noh2Cog.P) (r t : ℝ) (h : Noh2Cog.outcome p r t = .ok
       = (p.gamma - 1) * Noh2Cog.density p r t * Noh2Cog.specific_internal_energy p r t := by
   have he : Noh2Cog.specific_internal_energy p r t
       = Noh2Cog.pressure p r t / Noh2Cog.density p r t / (p.gamma - 1) := by
-    clear hρ hγ
-    epv_on_leaves epv_leaf_ring
+    epv_hydro_via_atoms (Noh2Cog.pressure p r t) (Noh2Cog.density p r t)
   rw [he]
   field_simp
 
